@@ -21,6 +21,10 @@ for d in sorted(glob.glob(os.path.join(ROOT, "seeded", "C*-*"))):
         caught = ("%s, with a failing input" % ck) if r.get("caught_with_input") else (("%s, as a broken proof / correspondence (no failing input found)" % ck) if r.get("caught") else "MISSED")
     def cell(s):
         return re.sub(r"\s+", " ", str(s or "")).replace("|", "/")[:260]
+    if m.get("invalid"):
+        caught += " (INVALID seed: " + m["invalid"].split(";")[0][:80] + ")"
+    if m.get("also_check"):
+        caught += " [also judged by " + ", ".join(m["also_check"]) + "]"
     if m.get("obsolete_since"):
         caught += " (obsolete since " + m["obsolete_since"].split(":")[0] + ")"
     rows.append("| %s | %s | %s | %s | %s |" % (sid, cell(m.get("breaks")), cell(m.get("needs")), "yes" if conf.get("ok") else ("no: " + cell(conf.get("baseline_with_patch", "not run"))[:60] if conf else "not run"), caught))
